@@ -7,7 +7,24 @@ AMF0_RULE = ("amf0: size-biased random value trees (numbers incl. NaN payloads/-
              "ECMA arrays / duplicate names / all 256 boolean bytes (decx), all 256 markers at 3 value positions, every "
              "truncation point of short encodings (dect), random and mutated byte strings; non-trivial = more than one token of value")
 
+CHUNK_RULE = ("chunk: library op sequences (messages biased to repeat type/stream/length so formats 0-3 all occur, timestamps boundary/"
+              "constant-step/decreasing/wrapping/extended, payloads around multiples of the chunk size incl. 0, force/droppable flags, "
+              "chunk-size changes incl. refused values) through the real serializer (ser), real serializer -> drop mask -> real deserializer "
+              "under whole/byte-wise/fixed/random partitions (rt, exhaustive masks for <= 6 droppable packets), foreign streams from an "
+              "independent Python spec encoder with 1/2/3-byte csids, all legal format choices, interleaving (fde), mutated/random streams (de); "
+              "non-trivial = at least two tokens after the op")
+
 PROPS = {
+    "C01": {"components": ["chunk"], "rule": CHUNK_RULE,
+            "explanation": "oracles C01.roundtrip / C01.packet_nonempty / C01.no_empty_packet on the real serializer+deserializer"},
+    "C06": {"components": ["chunk"], "rule": CHUNK_RULE,
+            "explanation": "oracle C06.foreign_stream: real deserializer on streams of the independent spec encoder = the encoded messages"},
+    "C07": {"components": ["chunk"], "rule": CHUNK_RULE,
+            "explanation": "oracle C07.spec_decoder_reads_serializer_output: extracted independent spec decoder on the real serializer's bytes"},
+    "C08": {"components": ["chunk"], "rule": CHUNK_RULE,
+            "explanation": "oracle C08.drop_roundtrip: real serializer output minus any subset of droppable packets decodes to the kept messages"},
+    "C16": {"components": ["chunk"], "rule": CHUNK_RULE,
+            "explanation": "oracle C06.foreign_stream restricted to interleaved streams (every second fde case)"},
     "C04": {"components": ["amf0"], "rule": AMF0_RULE,
             "explanation": "oracle C04.roundtrip: the real decoder applied to the real encoder's bytes returns the canonical input, consuming all bytes; C04.error_only_when_inexpressible"},
     "C12": {"components": ["amf0"], "rule": AMF0_RULE,
